@@ -63,7 +63,10 @@ where
     Ok(())
 }
 
-fn first_record_start_position(index: &BinnedIndex, mut id: usize) -> bgzf::VirtualPosition {
+pub(crate) fn first_record_start_position(
+    index: &BinnedIndex,
+    mut id: usize,
+) -> bgzf::VirtualPosition {
     let mut min_position = index.get(&id).copied().unwrap_or_default();
 
     while let Some(pid) = parent_id(id)
